@@ -61,6 +61,11 @@ ALIAS = [
     ("tree-symlinked-abs", lambda d: (["-r", "ee", "sda"], None)),           # the same through absolute link texts
     ("among-valid", lambda d: (["g", "f", "."], None)),
     ("backup-alias", lambda d: (["--backup", "numbered", "f", "./f"], None)),
+    # a DIRECTORY of the destination tree is a symbolic link back into the source (sdd/ff/in -> ../../ff/in): the mapped
+    # destination of ff/in/y is ff/in/y itself, reached by another spelling — with and without backups, which rename first
+    ("tree-symlinked-dir", lambda d: (["-r", "ff", "sdd"], None)),
+    ("tree-symlinked-dir-backup", lambda d: (["-r", "--backup", "numbered", "ff", "sdd"], None)),
+    ("tree-symlinked-dir-backup-auto", lambda d: (["-r", "--backup", "auto", "ff", "sdd"], None)),
     ("T-alias", lambda d: (["-T", "f", "sub/../f"], None)),
 ]
 
@@ -87,6 +92,11 @@ def alias_world(d):
     os.makedirs(os.path.join(d, "sd", "ee", "in"))
     os.symlink("../../ee/x", os.path.join(d, "sd", "ee", "x"))
     os.symlink("../../../ee/in/y", os.path.join(d, "sd", "ee", "in", "y"))
+    os.makedirs(os.path.join(d, "ff", "in"))
+    w("ff/in/y", b"reached through a symlinked directory" * 10)
+    w("ff/in/y.~4~", b"an older backup inside the source")
+    os.makedirs(os.path.join(d, "sdd", "ff"))
+    os.symlink("../../ff/in", os.path.join(d, "sdd", "ff", "in"))
     os.makedirs(os.path.join(d, "sda", "ee", "in"))
     os.symlink(os.path.join(d, "ee", "x"), os.path.join(d, "sda", "ee", "x"))
     os.symlink(os.path.join(d, "ee", "in", "y"), os.path.join(d, "sda", "ee", "in", "y"))
@@ -155,7 +165,7 @@ def run(ctx, out):
                 out.violation("self-copy (%s) issued a mutating call: %s %s" % (label, muts[0]["sys"], muts[0]["p1"]), rep)
             # (a') the same alias invocation with one errno injected at each of its calls: a failed
             # probe must never turn the refusal into a truncation of the source
-            if label in ("dotslash", "symlink", "hardlink", "tree-hardlinked", "tree-symlinked", "dir-via-symlink", "among-valid", "backup-alias"):
+            if label in ("dotslash", "symlink", "hardlink", "tree-hardlinked", "tree-symlinked", "dir-via-symlink", "among-valid", "backup-alias", "tree-symlinked-dir-backup"):
                 calls = [e for e in r.trace if "/.sup" not in e["p1"] and e["sys"] not in
                          ("close", "exit_group", "clone3", "clone", "umask") and not xcp.is_mutating(e)]
                 seen = {}
